@@ -40,7 +40,12 @@ SigsR2(u) == WF({Mk(FK5[((r + p) % 5) + 1], r + 2 * p, RK2[r], <<NK[p]>>, r + p)
                 \cup {Sig("getter", "K0", 0, k, <<>>, 0) : k \in {"enumC", "enumLL", "arrObj"}}
                 \cup {Sig("setter", "K0", 0, "void", <<k>>, 0) : k \in {"enumC", "enumLL", "arrI32", "arrF32"}}
                 \cup {Sig("opAsg", CL[((p + r) % 6) + 1], 0, r2, <<PK[p]>>, 0) : p \in {1, 5, 7, 11, 13, 16, 17, 19, 20}, r \in 1..2, r2 \in {"i32", "objVal"}}
-                \cup {Sig("opIndexRef", CL[c], 0, "void", <<k, "i32">>, 0) : c \in 1..6, k \in {"i32", "u8", "i64", "enumC"}})
+                \cup {Sig("opIndexRef", CL[c], 0, "void", <<k, "i32">>, 0) : c \in 1..6, k \in {"i32", "u8", "i64", "enumC"}}
+                \cup {Sig(f, "K0", 0, "objRef", <<>>, 0) : f \in {"opInc", "opDec"}}
+                \cup {Sig(f, "K0", 0, "objVal", <<"i32">>, 0) : f \in {"opInc", "opDec"}}
+                \cup {Sig("opBin", CL[((p + r) % 6) + 1], 0, RK[r], <<PK[p]>>, 0) : p \in {5, 7, 12, 16, 19, 20}, r \in {5, 11, 16, 19}}
+                \* virtual functions of K0 with every parameter kind (see CppLibCalls!Virt: a third of them is overridden)
+                \cup {Sig(FK4[(p % 2) + 2], "K0", 0, RK[((p * 3 + r) % 20) + 1], <<PK[p]>>, r % 2) : p \in 1..20, r \in 1..3})
 
 \* two parameters: every pair of parameter kinds (stride thins the set for the quick tier)
 P2(stride) == {x \in (1..20) \X (1..20) : (x[1] + 3 * x[2]) % stride = 0}
